@@ -147,6 +147,20 @@ def pool_draws(**kw) -> Pool:
     )
 
 
+def pool_mc(**kw) -> Pool:
+    """formulas CONTAINING the Monte-Carlo operator (the shape of a mixed model: log(MonteCarlo(f(beta, draws)))):
+    two free parameters, one column, two draw variables of different user-defined types; 3 observations x 3 draws"""
+    return Pool(
+        betas=BETAS[:2], vars=VARS[:2],
+        leaves=[('num', '2'), ('beta', 1), ('beta', 2), ('var', 1), ('draw', 1), ('draw', 2)],
+        unops=['MonteCarlo', 'exp', 'log', 'UnaryMinus', 'PowerConstant'], binops=['Plus', 'Minus', 'Times', 'Divide', 'bioMax'],
+        naryops=['bioMultSum'],
+        draws=[('zeta', 'TZ', [['1', '2', '1/2'], ['3', '1', '2'], ['1/2', '1/2', '3']]),
+               ('alpha', 'TA', [['2', '1', '1'], ['1/2', '3', '1'], ['2', '2', '1/2']])],
+        ndraws=3, **kw,
+    )
+
+
 def pool_mid(**kw) -> Pool:
     return Pool(
         betas=BETAS, vars=VARS,
@@ -237,7 +251,7 @@ class Builder:
             return UnaryMinus(k[0])
         if op == 'PowerConstant':
             return PowerConstant(k[0], float(F(n['num'][0], n['num'][1])))
-        if op in ('exp', 'log', 'logzero', 'sin', 'cos', 'bioNormalCdf'):
+        if op in ('exp', 'log', 'logzero', 'sin', 'cos', 'bioNormalCdf', 'MonteCarlo'):
             return getattr(ex, op)(k[0])
         if op == 'bioMultSum':
             return ex.bioMultSum(k)
@@ -266,7 +280,7 @@ class Builder:
         """The pure-Python evaluator defines get_value for this node and all descendants
         (table B.2 of DESIGN.md) and no data variable occurs."""
         n = self.node(i)
-        if n['op'] in ('Variable', 'BelongsTo', 'bioLinearUtility', 'bioNormalCdf'):
+        if n['op'] in ('Variable', 'BelongsTo', 'bioLinearUtility', 'bioNormalCdf', 'MonteCarlo', 'bioDraws'):
             return False
         return all(self.py_accepts(j) for j in n.get('kids', []))
 
